@@ -748,3 +748,29 @@ def error_from_syscall_rule(run, f, rid):
         run.fail(rid, "raw_resume/error-from-syscall", b.loc(er[0][1].get("line")), "on %d path(s) raw_resume calls error() for a body that ended with an error without leaving a system call first: when the panic or fault happened inside a hooked call (state Syscall(.., Executing)) error() refuses, resume() returns Err and the coroutine never becomes Error" % bad)
     else:
         run.ok(rid, "raw_resume/error-from-syscall", {"paths": n_ex})
+
+
+# ------------------------------------------------------------------ C23: the fresh segment is at least as large as the red zone
+def grow_size_rule(run, f, rid):
+    """maybe_grow_with promises "the closure is guaranteed to run on a stack with at least `red_zone` bytes".  On the growth
+    path the callback starts at the top of a fresh segment, so it has the segment's size: the size handed to
+    DefaultStack::new must be bounded below by the red zone (`stack_size.max(red_zone)`), not `stack_size` alone -- with
+    red_zone > stack_size the callback otherwise runs with less room than was asked for."""
+    run.rule(rid, "every segment maybe_grow_with allocates has a size derived from max(stack_size, red_zone)", floor=2, template="T5 (provenance of the size)")
+    b = unit(run, rid, f, CO + "::maybe_grow_with")
+    if b is None:
+        return
+    du = DefUse(b)
+    news = [(x, t) for (x, t) in b.calls() if norm(t.get("callee") or "").endswith("DefaultStack::new")]
+    if not news:
+        run.fail(rid, "maybe_grow_with/segment-size", b.loc(), "no DefaultStack::new in maybe_grow_with")
+        return
+    for i, (x, t) in enumerate(news):
+        sl = backward(b, t["args"][0], du, at=(x, "term"), through_calls="all")
+        names = {b.name_of(p_) for p_ in sl.params}
+        maxed = any(norm(tt.get("orig") or tt.get("callee") or "").rsplit("::", 1)[-1] in ("max", "clamp") for (_y, tt) in sl.calls) or bool({"Lt", "Le", "Gt", "Ge"} & set(sl.binops()))
+        key = "maybe_grow_with/segment-size/%d" % i
+        if "red_zone" in names and "stack_size" in names and maxed:
+            run.ok(rid, key, "max(stack_size, red_zone)")
+        else:
+            run.fail(rid, key, b.loc(t.get("line")), "the segment allocated for the callback has a size derived from %s only: with red_zone > stack_size the callback runs with less stack than the red zone it was promised" % (sorted(n for n in names if n) or "a constant"))
